@@ -163,6 +163,12 @@ func (env *historyEnv) targets(asset string, now int64) []target {
 		mk("mpd-timeline-number", map[string]string{"mode": "segtimelinenr_1/"}, "Manifest.mpd"),
 		mk("mpd-multi-period", map[string]string{"periods": "periods_60/"}, "Manifest.mpd"),
 		mk("mpd-timesubs", map[string]string{"timesubs": "timesubsstpp_en,sv/"}, "Manifest.mpd"),
+		mk("mpd-timeline-time-ato", map[string]string{"mode": "segtimeline_1/", "ato": "ato_1/"}, "Manifest.mpd"),
+		mk("mpd-timeline-number-ato", map[string]string{"mode": "segtimelinenr_1/", "ato": "ato_1/"}, "Manifest.mpd"),
+		mk("mpd-tsbd", map[string]string{"mode": "segtimeline_1/", "numbering": "tsbd_7/"}, "Manifest.mpd"),
+		mk("media-video-gone", nil, fmt.Sprintf("V300/%d.m4s", n-200)),
+		mk("media-audio-gone", nil, fmt.Sprintf("A48/%d.m4s", n-200)),
+		mk("media-video-early", nil, fmt.Sprintf("V300/%d.m4s", n+50)),
 		mk("init-video", nil, "V300/init.mp4"),
 		mk("init-audio", nil, "A48/init.mp4"),
 		mk("media-video-number", nil, fmt.Sprintf("V300/%d.m4s", n)),
@@ -227,10 +233,17 @@ func (env *historyEnv) neighbours(t target, kind string) []string {
 	switch kind {
 	case "time":
 		loop := int64(8000)
-		for _, d := range []int64{-env.segMS[t.Asset], env.segMS[t.Asset], -loop, 10 * loop, -3_600_000, 3_600_000} {
+		ds := []int64{-env.segMS[t.Asset], env.segMS[t.Asset], -loop, 10 * loop, -3_600_000, 3_600_000,
+			-1, -env.segMS[t.Asset] / 4, -env.segMS[t.Asset] / 2, -3 * env.segMS[t.Asset] / 4, env.segMS[t.Asset] / 4}
+		// a $Number$ media request: also the instant at which that segment is the newest one
+		var nr int64
+		if _, err := fmt.Sscanf(filepath.Base(t.Rest), "%d.", &nr); err == nil && t.Opts["mode"] == "" && nr > 0 && nr < 1<<40 {
+			ds = append(ds, (nr+2)*env.segMS[t.Asset]+env.segMS[t.Asset]/4-t.NowMS)
+		}
+		for _, d := range ds {
 			x := t
 			x.NowMS = t.NowMS + d
-			if x.NowMS >= 0 {
+			if x.NowMS >= 0 && d != 0 {
 				out = append(out, x.url())
 			}
 		}
@@ -286,6 +299,41 @@ func (env *historyEnv) neighbours(t target, kind string) []string {
 				out = append(out, t.with(kind, v).url())
 			}
 		}
+	}
+	return out
+}
+
+// variants: up to four requests of the family of t (earlier instants, with the addressed $Number$
+// moved along; the other subtitle language).
+func (env *historyEnv) variants(t target) []target {
+	out := []target{t}
+	seg := env.segMS[t.Asset]
+	var nr int64
+	hasNr := false
+	if _, err := fmt.Sscanf(filepath.Base(t.Rest), "%d.", &nr); err == nil && t.Opts["mode"] == "" {
+		hasNr = true
+	}
+	for k := int64(1); k <= 3; k++ {
+		x := t
+		x.NowMS = t.NowMS - k*seg
+		if x.NowMS < 0 {
+			break
+		}
+		if hasNr && nr-k >= 0 {
+			x.Rest = filepath.Dir(t.Rest) + "/" + fmt.Sprintf("%d", nr-k) + filepath.Ext(t.Rest)
+		}
+		if k%2 == 1 {
+			switch {
+			case strings.HasPrefix(x.Rest, "timestpp-sv/"):
+				x.Rest = "timestpp-en/" + strings.TrimPrefix(x.Rest, "timestpp-sv/")
+			case strings.HasPrefix(x.Rest, "timestpp-en/"):
+				x.Rest = "timestpp-sv/" + strings.TrimPrefix(x.Rest, "timestpp-en/")
+			}
+		}
+		if t.Patch {
+			continue // the publishTime of a patch request belongs to its instant
+		}
+		out = append(out, x)
 	}
 	return out
 }
@@ -397,10 +445,10 @@ func runHistories(c *lib.Ctx) (int, error) {
 		asset string
 		now   int64
 	}
-	specs := []spec{{"testpic_2s", 100000 + 2000*rng.Int63n(500)}}
+	specs := []spec{{"testpic_2s", 100000 + 2000*rng.Int63n(500) + 1050 + rng.Int63n(900)}}
 	if c.Thorough() {
-		specs = append(specs, spec{"testpic_8s", 400000 + 8000*rng.Int63n(100)}, spec{"testpic_2s", 1_700_000_000_000 + 2000*rng.Int63n(1000)},
-			spec{"testpic_2s", 50000 + 2000*rng.Int63n(20)}, spec{"testpic_8s", 1_600_000_000_000 + 8000*rng.Int63n(1000)})
+		specs = append(specs, spec{"testpic_8s", 400000 + 8000*rng.Int63n(100) + 7100 + rng.Int63n(800)}, spec{"testpic_2s", 1_700_000_000_000 + 2000*rng.Int63n(1000) + rng.Int63n(2000)},
+			spec{"testpic_2s", 50000 + 2000*rng.Int63n(20) + 1500}, spec{"testpic_8s", 1_600_000_000_000 + 8000*rng.Int63n(1000) + rng.Int63n(8000)})
 	}
 	var ts []target
 	for _, s := range specs {
@@ -480,6 +528,78 @@ func runHistories(c *lib.Ctx) (int, error) {
 		check("8 goroutines", h, got[i])
 		n += len(h.Reqs)
 	}
+	// storm: several different requests of ONE family at the same time (pooled buffers, shared scratch
+	// state): 16 goroutines loop over a handful of variants of the family's target
+	reps := 12
+	if c.Thorough() {
+		reps = 150
+	}
+	byFam := map[string][]target{}
+	var fams []string
+	for _, t := range ts {
+		if _, ok := byFam[t.Family]; !ok {
+			fams = append(fams, t.Family)
+			byFam[t.Family] = env.variants(t)
+		}
+	}
+	var vurls []string
+	for _, f := range fams {
+		for _, v := range byFam[f] {
+			if u := v.url(); !seen[u] {
+				seen[u] = true
+				vurls = append(vurls, u)
+			}
+		}
+	}
+	vfresh, err := freshAnswers(env, vurls)
+	if err != nil {
+		return n, err
+	}
+	for u, p := range vfresh {
+		fresh[u] = p
+	}
+	long3, err := lib.NewLivesim(env.root, serverMod(env))
+	if err != nil {
+		return n, err
+	}
+	for _, f := range fams {
+		vs := byFam[f]
+		if len(vs) < 2 {
+			continue
+		}
+		var mu sync.Mutex
+		bad := map[string]proj{}
+		var wg2 sync.WaitGroup
+		gate := make(chan struct{})
+		for g := 0; g < 16; g++ {
+			wg2.Add(1)
+			go func(g int) {
+				defer wg2.Done()
+				<-gate
+				for k := 0; k < reps; k++ {
+					u := vs[(g+k)%len(vs)].url()
+					if p := project(long3.Get(u)); p != fresh[u] {
+						mu.Lock()
+						bad[u] = p
+						mu.Unlock()
+					}
+				}
+			}(g)
+		}
+		close(gate)
+		wg2.Wait()
+		n += 16 * reps
+		c.Count("history:" + f + ":same-family-concurrent")
+		for u, p := range bad {
+			var list []string
+			for _, v := range vs {
+				list = append(list, v.url())
+			}
+			c.Fail("history:"+u, "history:"+f+":same-family-concurrent", fmt.Sprintf("%s while 16 goroutines ask %d requests of the same family on one instance: %v; a fresh instance asked this only: %v", u, len(vs), p, fresh[u]),
+				c07in{Kind: "history", URL: u, Mode: "storm", History: &history{Target: vs[0], Kind: "same-family-concurrent", Reqs: list}})
+			break
+		}
+	}
 	keys := make([]string, 0, len(reported))
 	for k := range reported {
 		keys = append(keys, k)
@@ -516,6 +636,42 @@ func replayHistory(c *lib.Ctx, in c07in) error {
 			c.Fail("replay", "history:"+h.Target.Family+":"+h.Kind, fmt.Sprintf("%s after %d neighbour requests: %v, fresh instance: %v", h.Target.url(), len(h.Reqs)-1, last, want), in)
 			return nil
 		}
+	}
+	return nil
+}
+
+// stormOnly: for the race detector - every family's variants from 16 goroutines on one instance,
+// answers not compared (the child has no fresh processes to compare with).
+func stormOnly(seed int64) error {
+	env, err := newHistoryEnv()
+	if err != nil {
+		return err
+	}
+	defer env.cleanup()
+	rng := rand.New(rand.NewSource(seed + 11))
+	ts := env.targets("testpic_2s", 100000+2000*rng.Int63n(500)+1050+rng.Int63n(900))
+	ls, err := lib.NewLivesim(env.root, serverMod(env))
+	if err != nil {
+		return err
+	}
+	done := map[string]bool{}
+	for _, t := range ts {
+		if done[t.Family] {
+			continue
+		}
+		done[t.Family] = true
+		vs := env.variants(t)
+		var wg sync.WaitGroup
+		for g := 0; g < 16; g++ {
+			wg.Add(1)
+			go func(g int) {
+				defer wg.Done()
+				for k := 0; k < 6; k++ {
+					ls.Get(vs[(g+k)%len(vs)].url())
+				}
+			}(g)
+		}
+		wg.Wait()
 	}
 	return nil
 }
